@@ -10,7 +10,7 @@ from ptstat import AnalysisError, algebra
 from ptstat.symval import SymObj, Phi, SymRaise, Builtin, Vec
 from ptstat.symlib import interp_f, vec_f
 from ptstat.world import World, mass_sym, install_class_writes
-from .common import world, eq, fsite, raises, folder, _s, constants_lint
+from .common import world, eq, fsite, raises, folder, _s, constants_lint, public_entry_points
 from .C06 import fr, close
 
 EXPLANATION = (
@@ -379,6 +379,7 @@ def _sld(ctx):
                   f"raises {r0}" if r0 else f"value {_s(v0)}", s_m)
     finally:
         del I.stubs["xsf.index_of_refraction"]
+    public_entry_points(ctx, "RW", [("xray_sld", "xsf.xray_sld")])
     ctx.floor("R3", 25)
 
 
